@@ -12,7 +12,8 @@ semantics `Rel.eval` of the *regenerated* statements to the hand-written models.
 * `Expr`  – scalar expressions over a row, three-valued logic, column references are
             positions (the translator resolves names against the schema).
 * `Rel`   – tables, projection, selection, inner/left join, `UNION [ALL]`, `DISTINCT`,
-            `GROUP BY` with aggregates, `[NOT] IN (subquery)` as a row filter.
+            `GROUP BY` with aggregates, `[NOT] IN (subquery)` as a row filter, window aggregates,
+            `row_number() OVER (PARTITION BY … ORDER BY …)`.
 * `Rel.eval` – bag semantics as lists (row order is unspecified in SQL: statements
             about results are about membership, multiplicity or permutations).
 -/
@@ -135,6 +136,9 @@ inductive Expr where
   | toRat (a : Expr)
   /-- `a || b` (string concatenation, NULL-propagating; an integer operand contributes its decimal text) -/
   | concat (a b : Expr)
+  /-- `cast(a as int)` of a boolean: TRUE ↦ 1, FALSE ↦ 0, NULL ↦ NULL (the translator admits it on booleans only; an
+  integer stays as it is) -/
+  | boolToInt (a : Expr)
 deriving Repr, Inhabited
 
 def Expr.eval (row : Row) : Expr → Val
@@ -154,6 +158,10 @@ def Expr.eval (row : Row) : Expr → Val
     | .int i => .rat (i : Rat)
     | v => v
   | .concat a b => Val.concat (a.eval row) (b.eval row)
+  | .boolToInt a => match a.eval row with
+    | .bool b => .int (if b then 1 else 0)
+    | .int i => .int i
+    | _ => .null
 
 /-- `WHERE` / `ON` keep a row iff the predicate is TRUE. -/
 def Expr.holds (e : Expr) (row : Row) : Bool := e.eval row == .bool true
@@ -229,6 +237,17 @@ inductive Rel where
   /-- `SELECT *, agg OVER (ORDER BY key [DESC]) FROM r` with the default frame (RANGE … CURRENT ROW: peers included):
   the aggregate over the rows whose key is `≤` (`≥` when `desc`) this row's key -/
   | windowCum (key : Expr) (desc : Bool) (agg : Agg) (r : Rel)
+  /-- `SELECT *, row_number() OVER (PARTITION BY part… ORDER BY key [DESC]) FROM r`: one more column, **1 + the number of
+  rows of the same partition that come strictly before this row in the ORDER BY** (key strictly greater when `desc`,
+  strictly smaller otherwise; partitions compare NULLs as equal, like `GROUP BY`).  This is a function of the bag of rows
+  (row order of `r` does not matter) and it IS SQL's `row_number()` whenever the order keys are non-NULL and pairwise
+  distinct within every partition: then the rows of a partition have exactly one admissible numbering.  With tied keys
+  (or NULL keys, whose place in the order is engine-specific) SQL leaves the numbering of the peers open — any
+  numbering that extends the order is admissible, and engines pick one depending on physical row order and threads; here
+  all peers get the number of the first of them (SQL's `rank()`), which for the test `= 1` is the union of all admissible
+  outcomes (an over-approximation).  Theorems that use this construct as `row_number()` therefore carry an explicit
+  tie-freeness hypothesis. -/
+  | rowNumber (part : List Expr) (key : Expr) (desc : Bool) (r : Rel)
 deriving Repr, Inhabited
 
 def Rel.eval (db : Db) : Rel → List Row
@@ -265,6 +284,14 @@ def Rel.eval (db : Db) : Rel → List Row
       row ++ [agg.eval (rows.filter fun x =>
         let kx := key.eval x
         (if desc then Cmp.ge.eval kx k else Cmp.le.eval kx k) == .bool true)]
+  | .rowNumber part key desc r =>
+    let rows := r.eval db
+    let keyOf := fun (row : Row) => part.map (·.eval row)
+    rows.map fun row =>
+      let k := key.eval row
+      row ++ [.int (1 + ((rows.filter fun x =>
+        keyOf x == keyOf row &&
+          (if desc then Cmp.gt.eval (key.eval x) k else Cmp.lt.eval (key.eval x) k) == .bool true).length : Nat))]
 
 /-- One CTE / pipeline step: `name AS (rel)`. -/
 structure Stmt where
